@@ -90,8 +90,8 @@ class BurstDeleter(actors.Party):
 class C06(Check):
     prop = "C06"
     level = "fault_enumeration"
-    quick_runs = 2400
-    thorough_runs = 60000
+    quick_runs = 2000
+    thorough_runs = 50000
     chunk = 20
     rule = (
         "seeded histories (importer incl. bulk 1..300 and mixed upserts, editor incl. deletes and blind replace_last, admin "
